@@ -34,9 +34,9 @@ def run(ctx):
                           ("MC_ReproDoc_E.cfg", (1, 2), 1500, 40, 20, 1)])
         rc.trace_leg(ctx, 300, 20, ALLOPS)
     else:
-        rc.lts_legs(ctx, [("MC_ReproDoc_A.cfg", (1, 2, 3), 10 ** 9, 600, 40, 2),
-                          ("MC_ReproDoc_B.cfg", (1, 2, 3), 10 ** 9, 600, 40, 2),
-                          ("MC_ReproDoc_C.cfg", (1, 2, 3), 60000, 600, 40, 1),
+        rc.lts_legs(ctx, [("MC_ReproDoc_A.cfg", (1, 2, 3), 30000, 600, 40, 2),
+                          ("MC_ReproDoc_B.cfg", (1, 2, 3), 40000, 600, 40, 1),
+                          ("MC_ReproDoc_C.cfg", (1, 2, 3), 30000, 600, 40, 1),
                           ("MC_ReproDoc_D.cfg", (1, 2), 10 ** 9, 200, 8, 4),
                           ("MC_ReproDoc_E.cfg", (1, 2), 10 ** 9, 300, 30, 3)])
         rc.trace_leg(ctx, 5000, 30, ALLOPS)
